@@ -143,3 +143,129 @@ def fault_class(case):
         out.append((o["o"], o.get("tn", ""), len(p), any(x.startswith("#") for x in p),
                     tuple(sorted((tuple(n["at"]) == tuple(p)[:len(n["at"])], len(n["at"])) for n in case["nulls"]))))
     return tuple(sorted(out))
+
+
+# ---- gated execution (C08 / C09 / C15) -------------------------------------------------
+def engine_cfg_for(case):
+    cfg = {"list_conc": bool(case["lconc"]), "seq_fields": tuple(sorted(case["seq"]))}
+    return cfg
+
+
+class GatedRun:
+    """One request in flight under the controlled loop.  step(path) satisfies the await
+    of the resolver at `path`; pending() is the set of started-and-unfinished resolvers."""
+
+    def __init__(self, world, case, cfg, loop=None, ctx=None):
+        self.world = world
+        self.case = case
+        self.loop = loop or main_loop()
+        self.eng = world.engine(cfg)
+        self.doc = render.DocText(case["nodes"])
+        self.cs = CaseState(table_of(case["calls"]), gated=True, loop=self.loop)
+        self.cs.ctx = ctx if ctx is not None else {"ctx": id(self.cs)}
+        self.task = None
+
+    def start(self):
+        w = self.world
+        w.case = self.cs
+        self.task = self.loop.task(self.eng.execute(self.doc.text, operation_name=op_name(self.case), context=self.cs.ctx,
+                                                    variables=variables_py(self.case["given"])))
+        self.loop.idle()
+
+    def pending(self):
+        return {p for p, f in self.cs.gates.items() if not f.done()}
+
+    def release(self, path):
+        self.world.case = self.cs
+        self.cs.gates[path].set_result(None)
+        self.loop.idle()
+
+    def done(self):
+        return self.task.done()
+
+    def result(self):
+        try:
+            return self.task.result()
+        except BaseException as e:
+            return {"__raised__": repr(e)}
+
+
+def run_schedule(world, case, check_serial=False):
+    """Drive the real engine along the schedule TLC printed.  Returns (mismatches, info)."""
+    out = []
+    info = {"deviations": 0, "steps": 0, "max_pending": 0}
+    g = GatedRun(world, case, engine_cfg_for(case))
+    g.start()
+    order = [tuple(h["rel"]) for h in case["hist"]]
+    expected_pending = [set(map(tuple, case["init"]))] + [set(map(tuple, h["pending"])) for h in case["hist"]]
+    root_keys = None
+    if check_serial:
+        root_keys = []
+        for c in case["calls"]:
+            k = c["path"][0]
+            if k not in root_keys:
+                root_keys.append(k)
+    step = 0
+    seen_root_idx = -1
+    guard = 0
+    while not g.done():
+        pend = g.pending()
+        info["max_pending"] = max(info["max_pending"], len(pend))
+        if step < len(expected_pending) and pend != expected_pending[step]:
+            info["deviations"] += 1
+        if check_serial and pend:
+            roots = {p[0] for p in pend}
+            if len(roots) > 1:
+                out.append("mutation roots %s have resolvers in flight at the same time (pending %s)" % (sorted(roots), sorted(map(list, pend))))
+                break
+        if not pend:
+            out.append("deadlock: execute not finished and no resolver pending (released %d)" % step)
+            break
+        nxt = None
+        for p in order[step:] + order[:step]:
+            if p in pend:
+                nxt = p
+                break
+        if nxt is None:
+            nxt = sorted(pend)[0]
+        g.release(nxt)
+        step += 1
+        guard += 1
+        if guard > 10000:
+            out.append("no termination after 10000 releases")
+            break
+    info["steps"] = step
+    if out:
+        for f in g.cs.gates.values():
+            if not f.done():
+                f.cancel()
+        if g.task and not g.task.done():
+            g.task.cancel()
+        g.loop.idle()
+        world.case = None
+        return out, info, g
+    resp = g.result()
+    world.case = None
+    # everything started has finished, nothing left alive
+    if g.pending():
+        out.append("resolvers still pending after execute returned: %s" % sorted(map(list, g.pending())))
+    live = [t for t in g.loop.live_tasks()]
+    if live:
+        out.append("%d tasks still alive after execute returned" % len(live))
+    out.extend(compare_faults(case, resp, g.cs, g.doc))
+    if check_serial:
+        # start order of the roots is document order, never going back
+        idx = -1
+        for path, _p, _a, _c in g.cs.calls:
+            i = root_keys.index(path[0]) if path[0] in root_keys else -1
+            if i < idx:
+                out.append("resolver under root %r started after a later root had begun" % (path[0],))
+                break
+            idx = max(idx, i)
+        data = resp.get("data") if isinstance(resp, dict) else None
+        if isinstance(data, dict):
+            exp_keys = list(render.value_py(case["data"]).keys()) if case["data"]["t"] == "O" else []
+            if list(data.keys()) != exp_keys:
+                out.append("root fields not in document order: %r" % (list(data.keys()),))
+    info["resp"] = resp
+    return out, info, g
